@@ -258,7 +258,7 @@ Definition sched_stop_vs_end : list lab :=
   sched_start_running
   ++ [LI OStop; LM 0; LM 0]                    (* MSo0 check passes, MSo1 fires STOPPING *)
   ++ [LW 0; LW 0]                              (* handler returns, loop head *)
-  ++ [LW 1]                                    (* bound reached, bound >= end *)
+  ++ [LW 1]                                    (* bound reached, bound = end *)
   ++ rep_lab 11 (LW 0)                         (* ENDING, STOPPING, STOP, STOPPED, ENDED.., clear, exit *)
   ++ [LM 0; LM 0].                             (* MSo2 writes STOPPING, MSo3 sees the finalized worker *)
 
@@ -345,7 +345,7 @@ Qed.
 Example ended_reachable_sequentially :
   exists s, oreach false pol_quiescent s /\ quiescent s = true /\ o_ps s = PEnded /\ qgood s = true.
 Proof.
-  exists (mkO REnded PEnded false false true true true false false WDead MIdle
+  exists (mkO REnded PEnded false false true false true false false WDead MIdle
               (Some (mkMon true 0 true false false false true (Some 0%Z)))).
   split; [|auto].
   assert (R1 : oreach false pol_quiescent (up_m MSt0 oinit)).
